@@ -25,6 +25,7 @@ A failing case is shrunk (projection on the failing key, removal of sources, can
 the canonical violation key is the descriptor of the shrunk chain, so one defect yields one or two keys.
 """
 import copy
+import fnmatch
 import itertools
 import json
 import multiprocessing
@@ -98,10 +99,15 @@ def effective_files(case):
         if pat[0] == "file":
             out.append(pat[2])
         elif pat[0] == "glob":
-            out.extend(c for _, c in sorted(pat[1]))
+            out.extend(c for _, c in matched(pat))
         elif pat[0] in ("missing", "empty"):
             pass
     return out
+
+
+def matched(pat):
+    """The files of a glob entry that its pattern matches, in sorted order (shell-style matching by the stdlib's fnmatch)."""
+    return [(n, c) for n, c in sorted(pat[1]) if fnmatch.fnmatchcase(n, pat[2])]
 
 
 def ref_fold(case):
@@ -317,7 +323,7 @@ def removals(case):
         yield c
         if pat[0] == "glob":
             c = copy.deepcopy(case)
-            c["dcf"][i: i + 1] = [("file", "abs", cc) for _, cc in sorted(pat[1])]
+            c["dcf"][i: i + 1] = [("file", "abs", cc) for _, cc in matched(pat)]
             yield c
         if pat[0] == "file" and pat[1] == "home":
             c = copy.deepcopy(case)
@@ -436,7 +442,7 @@ def chain_of(case, key):
         if pat[0] == "file":
             ops(pat[2], "dcf")
         elif pat[0] == "glob":
-            for _, c in sorted(pat[1]):
+            for _, c in matched(pat):
                 ops(c, "dcf")
     if case["envcfg"]:
         ops(case["envcfg"][1], "envcfg")
@@ -508,7 +514,7 @@ def explain(case, key, tmp, depth=0):
             rest = strip(case, key, set(mchain))
             bad, res = failing(rest, tmp)
             if res[0] == "ok" and key not in bad:
-                return [record]
+                return [(record[0], record[1], dict(record[2], found_in=reproducer(case)))]
             if res[0] == "ok" and depth < 3:
                 return explain(rest, key, tmp, depth + 1)
     small = shrink(case, key, tmp) if key != "n.s" else case
@@ -668,6 +674,9 @@ def enumerate_cases(thorough, rng):
             if thorough and n >= 5:
                 # bound: at lengths 5 and 6 only the first four atoms of the focus key
                 per_pos = [a[:4] for a in per_pos]
+            if not thorough and n == 4:
+                # quick bound: at length 4 only the first 5 (list) / 4 (dict) / 3 (scalar) atoms of the focus key
+                per_pos = [a[: {"list": 5, "dict": 4, "scalar": 3}[KIND[focus]]] for a in per_pos]
             for seq in itertools.product(*per_pos):
                 yield mk(envmode="off", final=seq)
                 if n <= lens[focus] - 1:
@@ -681,8 +690,8 @@ def enumerate_cases(thorough, rng):
                 for ec in (None, ("str", 1), ("file", 2), ("str", 3), ("file", 4)):
                     for e in (0, 1, 2):
                         for fg in (1, 2, 3):
-                            if nd == 3 and (fg + e + (ec[1] if ec else 0) + sum(g)) % 3 and not thorough:
-                                continue  # quick bound: a third of the three-file chains
+                            if not thorough and (nd == 3 and (fg + e + (ec[1] if ec else 0) + sum(g)) % 3 or nd == 2 and (fg + e + sum(g)) % 2):
+                                continue  # quick bound: a third of the three-file chains, half of the two-file chains
                             yield mk(method=method, dcf=build(g), envcfg=(ec[0], content(3, ec[1])) if ec else None, envvars=envvars_of(e),
                                      final=content(5, fg))
     for envdict in (False, True):
@@ -693,7 +702,7 @@ def enumerate_cases(thorough, rng):
                 for g in itertools.product((1, 2, 3), repeat=nd):
                     for ec in ec_opts:
                         for e in (0, 1, 2):
-                            if not thorough and (envmode == "on" and nd >= 2 or nd == 3 and (sum(g) + e) % 3 or envdict and nd == 2 and e == 0):
+                            if not thorough and (envmode == "on" and nd >= 2 or nd == 3 and (sum(g) + e) % 3 or nd == 2 and (sum(g) + e + envdict) % 2):
                                 continue
                             yield mk(method="env", envmode=envmode, dcf=build(g), envcfg=(ec[0], content(3, ec[1])) if ec else None,
                                      envvars=envvars_of(e), envdict=envdict)
@@ -792,7 +801,7 @@ def main():
             collect(h, results)
     else:
         collect(h, map(run_chunk, chunks))
-    lens = "6 (first 4 atoms at lengths 5-6)" if h.thorough else "4 (3 for the nested list/dict key)"
+    lens = "6 (first 4 atoms at lengths 5-6)" if h.thorough else "4 (3 for the nested list/dict key; first 5/4/3 atoms at length 4)"
     sys.exit(h.finish(exhaustive=True, bound="0-3 default config files in %d layouts (direct, glob with creation order != sorted order, missing%s) x 3 contents per file; "
                       "env config {none, string, file} x 3 contents; env variables {none, 2 sets, each key alone}; every sequence of <= %s command line items over the "
                       "atoms of one focus key (option, '+' scalar, '+' list, dict item, config file, config string) on an empty and a full pre-chain; parse_args, "
